@@ -4,3 +4,5 @@ pub mod report;
 pub mod rng;
 pub mod simnet;
 pub mod procsys;
+pub mod scen;
+pub mod c03;
